@@ -586,12 +586,17 @@ Expr={expr}"""
         return _concat, ()
 
     @staticmethod
-    def _postpersist(futures, meta, divisions, name):
+    def _postpersist(futures, meta, divisions, name, keys=None):
+        if keys is None or not all(k in futures for k in keys):
+            # persist: ``futures`` holds exactly the (possibly renamed) output keys
+            keys = sorted(futures)
+        # otherwise, e.g. dask.optimize: ``futures`` is a whole graph that still
+        # contains this collection's own keys among many others
         return from_graph(
             futures,
             meta,
             divisions,
-            sorted(futures),
+            keys,
             name,
         )
 
@@ -602,6 +607,7 @@ Expr={expr}"""
             # Note: This prefix is wrong since optimization may actually yield a
             # different one. That's should only be an issue for visualization.
             key_split(self._name),
+            list(flatten(self.__dask_keys__())),
         )
 
     def __getattr__(self, key):
